@@ -772,6 +772,30 @@ Section RunDoc.
     | Ok p => parse_all t (doc_fields 4 p)
     end.
 
+  (** ** Paginated fields (schemabuilder/pagination.go buildPaginatedArgParser, 1402-1504): the connection
+         arguments are parsed into ConnectionArgs, every other member goes to the ordinary struct parser of
+         the resolver's own argument struct - also when none is left. *)
+  Definition conn_ty : ty :=
+    TStruct [("first", TPtr (TInt I64)); ("last", TPtr (TInt I64)); ("after", TPtr TString);
+             ("before", TPtr TString); ("filterText", TPtr TString);
+             ("filterTextFields", TPtr (TList TString)); ("sortBy", TPtr TString);
+             ("sortOrder", TPtr (TEnum (GInt 0) [("asc", GInt 0); ("desc", GInt 1)]));
+             ("filterType", TPtr TString)].
+  Definition conn_names : list string :=
+    ["first"; "last"; "after"; "before"; "filterText"; "filterTextFields"; "sortBy"; "sortOrder"; "filterType"].
+
+  Definition own_members (o : list (string * jv)) : list (string * jv) :=
+    filter (fun kv => negb (mem_str (fst kv) conn_names)) o.
+
+  Definition parse_paginated (t : ty) (j : jv) : result gv :=
+    match j with
+    | VObj o => match parse b64_dec time_dec text_dec conn_ty j with
+                | Err e => Err e
+                | Ok _ => parse b64_dec time_dec text_dec t (VObj (own_members o))
+                end
+    | _ => Err EArgs
+    end.
+
   (** Parse the document, then parse the arguments of the one field [f] it reaches. *)
   Definition run_doc (t : ty) (vars : list (string * jv)) (d : doc) : result gv :=
     match parse_doc vars d with
@@ -781,12 +805,23 @@ Section RunDoc.
               | _ => Err EParse
               end
     end.
+
+  Definition run_doc_paginated (t : ty) (vars : list (string * jv)) (d : doc) : result gv :=
+    match parse_doc vars d with
+    | Err e => Err e
+    | Ok p => match doc_fields 4 p with
+              | [(_, j)] => parse_paginated t j
+              | _ => Err EParse
+              end
+    end.
 End RunDoc.
 
 Inductive obs := OOk (v : gv) | OErrParse | OErrArgs | OOther.
 
 Record send := mk_send { s_defs : list vardef; s_vars : list (string * jv);
-                         s_args : list (string * lit); s_place : place; s_obs : obs;
+                         s_args : list (string * lit); s_place : place;
+                         s_conn : option (list (string * lit));   (* Some c: sent to the paginated field, connection arguments c *)
+                         s_obs : obs;
                          s_calls : Z (* resolver calls observed for this request *) }.
 
 (** A request selecting the same field several times (aliases, fragments), each with its own arguments. *)
@@ -796,7 +831,11 @@ Record msend := mk_msend { m_vars : list (string * jv); m_doc : doc; m_obs : mob
 Record case := mk_case { c_ty : ty; c_sends : list send; c_multi : list msend }.
 
 Definition run_conc (t : ty) (s : send) : result gv :=
-  run_doc b64_dec time_dec text_dec t (s_vars s) (doc_at (s_place s) (s_defs s) "f" (s_args s)).
+  match s_conn s with
+  | None => run_doc b64_dec time_dec text_dec t (s_vars s) (doc_at (s_place s) (s_defs s) "f" (s_args s))
+  | Some c => run_doc_paginated b64_dec time_dec text_dec t (s_vars s)
+                (doc_at (s_place s) (s_defs s) "p" (c ++ s_args s)%list)
+  end.
 
 (** codes: 1 = accepted/rejected (or the rejecting phase) differs, 2 = value reaching the resolver differs,
     3 = number of resolver calls differs from the two-phase machine's (1 after Ok, 0 after Err) *)
